@@ -79,6 +79,7 @@ static void check_form (const OrcStaticOpcode * o, int mult, int kind /* 0 SS, 1
   int ss0 = o->src_size[0], ss1 = nsrc > 1 ? o->src_size[1] : 0, ds = o->dest_size[0], ds2 = o->dest_size[1];
   int scalar = (o->flags & ORC_STATIC_OPCODE_SCALAR) != 0;
   long na, nb = 1, ia, ib, T, k;
+  int full16;
   uint64_t *va = alpha (ss0, isf_src, &na), *vb = NULL;
   char form[64];
   unsigned char *S1, *S2 = NULL, *D1, *D2 = NULL;
@@ -94,6 +95,7 @@ static void check_form (const OrcStaticOpcode * o, int mult, int kind /* 0 SS, 1
   /* layout of the tuple table: arrays kind: all pairs in one run (8-bit: 65536; 16-bit: restricted or chunked; wide: |B|^2);
    * const/param kind: one run per b value over all a (b restricted to a boundary subset for 16-bit) */
   if (kind == 0 && nsrc > 1 && ss0 == 2 && ss1 == 2) bchunks = 65536;	/* per chunk: b fixed, all a */
+  full16 = thorough && mult == 1;	/* all 2^32 pairs for the plain form; x2/x4 forms use the boundary rows and columns */
   for (bc = 0; bc < (kind == 0 ? bchunks : nb); bc++) {
     long nbrun;
     OrcProgram *p;
@@ -102,7 +104,7 @@ static void check_form (const OrcStaticOpcode * o, int mult, int kind /* 0 SS, 1
     int use_fixed = 0;
     if (kind == 0 && bchunks > 1) {
       /* 16-bit pairs: thorough = every b; quick = b in B16 plus (all b) x (a in B16) handled by the transposed pass below */
-      if (!thorough) { int inb = 0, q; for (q = 0; q < VNB16; q++) if (VB16[q] == (uint64_t) bc) inb = 1; if (!inb) continue; }
+      if (!full16) { int inb = 0, q; for (q = 0; q < VNB16; q++) if (VB16[q] == (uint64_t) bc) inb = 1; if (!inb) continue; }
       bfixed = bc; use_fixed = 1;
     } else if (kind != 0) {
       bfixed = vb[bc]; use_fixed = 1;
@@ -201,7 +203,7 @@ static void check_form (const OrcStaticOpcode * o, int mult, int kind /* 0 SS, 1
     if (v_expired ()) break;
   }
   /* transposed 16-bit pass (quick): a in B16, all b */
-  if (kind == 0 && bchunks > 1 && !thorough) {
+  if (kind == 0 && bchunks > 1 && !full16) {
     int q;
     for (q = 0; q < VNB16; q++) {
       OrcProgram *p = orc_program_new_dss (2 * mult, 2 * mult, 2 * mult);
@@ -277,19 +279,21 @@ static void check_acc (const OrcStaticOpcode * o)
 /* loads and stores: index functions */
 static void check_load (const OrcStaticOpcode * o)
 {
-  int sz = o->dest_size[0], n, k, variant;
+  int sz = o->dest_size[0], n, k, variant, pk, npk = (op_is_loadoff (o) ? 2 : op_is_ldres (o) ? 3 : 1);
   st_forms++;
-  for (variant = 0; variant < 6; variant++) {
-    static const int offs[] = { 0, 1, -1, 3, -4, 7 };
-    static const int st[] = { 0, 0x8000, 0x18000, 0, 0xffff, 0x4000 };
-    static const int inc[] = { 0x10000, 0x8000, 0x18000, 0x5555, 0x10001, 0x23456 };
+  /* pk: scalar operands given as constants (0), or one of them as a run-time parameter (1: offset / start, 2: step) */
+  for (pk = 0; pk < npk; pk++)
+  for (variant = 0; variant < 8; variant++) {
+    static const int offs[] = { 0, 1, -1, 3, -4, 7, -7, 2 };
+    static const int st[] = { 0, 0x8000, 0x18000, 0, 0xffff, 0x4000, -0x18000, 0x300000 };
+    static const int inc[] = { 0x10000, 0x8000, 0x18000, 0x5555, 0x10001, 0x23456, 0x10000, -0x8000 };
     for (n = 0; n <= 50; n += (n < 20 ? 1 : 5)) {
       long srclen = 4 * n + 64;
       unsigned char *S = calloc (srclen + 16, sz), *D = calloc (n + 64, sz), *S0 = S + 8 * sz;
       OrcProgram *p = orc_program_new ();
       int d, s, c1 = -1, c2 = -1, bad = 0;
       char form[40];
-      snprintf (form, sizeof (form), "variant%d", variant);
+      snprintf (form, sizeof (form), "variant%d%s", variant, pk == 1 ? "/param1" : pk == 2 ? "/param2" : "");
       for (k = -8; k < srclen; k++) putv (S0 + k * sz, sz, (uint64_t) (k * 2654435761u + 12345) ^ ((uint64_t) k << 32));
       orc_program_set_name (p, "xload");
       d = orc_program_add_destination (p, sz, "d1");
@@ -298,12 +302,16 @@ static void check_load (const OrcStaticOpcode * o)
         orc_program_append_2 (p, o->name, 0, d, c1, -1, -1);
       } else {
         s = orc_program_add_source (p, o->src_size[0], "s1");
-        if (op_is_loadoff (o)) { c1 = orc_program_add_constant (p, 4, offs[variant], "c1"); orc_program_append_2 (p, o->name, 0, d, s, c1, -1); }
-        else if (op_is_ldres (o)) { c1 = orc_program_add_constant (p, 4, st[variant], "c1"); c2 = orc_program_add_constant (p, 4, inc[variant], "c2"); orc_program_append_2 (p, o->name, 0, d, s, c1, c2); }
+        if (op_is_loadoff (o)) { c1 = pk == 1 ? orc_program_add_parameter (p, 4, "p1") : orc_program_add_constant (p, 4, offs[variant], "c1"); orc_program_append_2 (p, o->name, 0, d, s, c1, -1); }
+        else if (op_is_ldres (o)) {
+          c1 = pk == 1 ? orc_program_add_parameter (p, 4, "p1") : orc_program_add_constant (p, 4, st[variant], "c1");
+          c2 = pk == 2 ? orc_program_add_parameter (p, 4, "p1") : orc_program_add_constant (p, 4, inc[variant], "c2");
+          orc_program_append_2 (p, o->name, 0, d, s, c1, c2);
+        }
         else orc_program_append_2 (p, o->name, 0, d, s, -1, -1);
       }
       if (!compile_prog (p)) { st_skipped++; orc_program_free (p); free (S); free (D); return; }
-      if (run_prog (p, n, D, NULL, S0, NULL, 0, 0, 0, NULL)) { viol (o->name, "crash", form, "signal while running"); bad = 1; }
+      if (run_prog (p, n, D, NULL, S0, NULL, op_is_loadoff (o) ? offs[variant] : pk == 1 ? st[variant] : inc[variant], pk != 0, 4, NULL)) { viol (o->name, "crash", form, "signal while running"); bad = 1; }
       for (k = 0; k < n && !bad; k++) {
         uint64_t want, got = getv (D + k * sz, sz);
         if (op_is_loadp (o)) want = (sz == 8 ? VB64[(variant * 7 + n) % VNB64] : (uint64_t) (int64_t) (int) VB32[(variant * 5 + n) % VNB32]) & ref_mask (sz);
